@@ -1,6 +1,6 @@
 (* C01 -- property theorems only.  Proofs live in C01/Proofs*.v. *)
 From Coq Require Import NArith List.
-From DV Require Import Base.Outcome Base.Bytes Base.Names Base.PName C01.Gen C01.Model C01.Model2 C01.Model3 C01.Proofs C01.Proofs2 C01.Proofs3 C01.Proofs4 C01.Proofs5 C01.Proofs6.
+From DV Require Import Base.Outcome Base.Bytes Base.Names Base.PName C01.Gen C01.Model C01.Model2 C01.Model3 C01.Model4 C01.Proofs C01.Proofs2 C01.Proofs3 C01.Proofs4 C01.Proofs5 C01.Proofs6 C01.Proofs7 C01.Proofs8 C01.Proofs9.
 From DV Require Import C05.Schema C05.Model.
 Import ListNotations.
 Local Open Scope N_scope.
@@ -231,3 +231,55 @@ Print Assumptions C01_get_last_additional_total.
 Theorem C01_read_ops3_total : forall m ops, no_panic (read_ops3 m ops).
 Proof. exact read_ops3_total. Qed.
 Print Assumptions C01_read_ops3_total.
+
+(* ---- widening round 3 ---- *)
+
+(* display-time iteration over what the typed parser accepted *)
+Theorem C01_bitmap_iter_total : forall d, rest_check KBitmap d = None -> exists l, bitmap_iter d = Ok l.
+Proof. exact bitmap_iter_total. Qed.
+Print Assumptions C01_bitmap_iter_total.
+
+Theorem C01_bitmap_contains_total : forall d rtype, rest_check KBitmap d = None ->
+  exists b, bitmap_contains d rtype = Ok b.
+Proof. exact bitmap_contains_total. Qed.
+Print Assumptions C01_bitmap_contains_total.
+
+Theorem C01_txt_iter_total : forall d, txt_check d = true -> exists l, txt_iter d = Ok l.
+Proof. exact txt_iter_total. Qed.
+Print Assumptions C01_txt_iter_total.
+
+Theorem C01_svc_value_total : forall key v, exists x, svc_value key v = Ok x.
+Proof. exact svc_value_total. Qed.
+Print Assumptions C01_svc_value_total.
+
+Theorem C01_svc_display_total : forall d, rest_check KSvcParams d = None -> exists l, svc_display d = Ok l.
+Proof. exact svc_display_total. Qed.
+Print Assumptions C01_svc_display_total.
+
+(* the premise of the three theorems above is discharged for every record a
+   section iterator yields: whatever the typed parser (C05) accepted is walked
+   without panic (NSEC / NSEC3 bitmaps, SVCB / HTTPS parameters, TXT strings) *)
+Theorem C01_display_walk_total : forall m r, good_rr m (mlen m) r -> no_panic (display_walk m r).
+Proof. exact display_walk_total. Qed.
+Print Assumptions C01_display_walk_total.
+
+Theorem C01_read_ops4_total : forall m ops, no_panic (read_ops4 m ops).
+Proof. exact read_ops4_total. Qed.
+Print Assumptions C01_read_ops4_total.
+
+(* a traversal made after arbitrary earlier activity gives what it gives on a
+   fresh view; hence a message traversed twice yields the same results *)
+Theorem C01_traversal_independent_of_history : forall m st ops,
+  ofst (run_ops4 m st (map (shift_op4 (length st)) ops)) = ofst (run_ops4 m [] ops).
+Proof. exact traversal_independent_of_history. Qed.
+Print Assumptions C01_traversal_independent_of_history.
+
+Theorem C01_traversed_twice_same : forall m ops r st1,
+  run_ops4 m [] ops = Ok (r, st1) ->
+  ofst (run_ops4 m st1 (map (shift_op4 (length st1)) ops)) = Ok r.
+Proof. exact traversed_twice_same. Qed.
+Print Assumptions C01_traversed_twice_same.
+
+Theorem C01_source_sites_display : gen_matches_display = true.
+Proof. exact gen_matches_display_ok. Qed.
+Print Assumptions C01_source_sites_display.
